@@ -122,10 +122,15 @@ def run_history(hist, hid, flags, scope, redeclare=False):
     ms, mp = _new_module("s"), _new_module("p")
     results = {}
 
+    decorators: dict = {}
+
     def dec_s(i, d, w):
         def deco(cls):
             ms._P[i] = cls
-            new = classes.slotted(dict=d, weakref=w)(cls)
+            # (a decorator object kept by the caller and applied to several classes: one per flag pair and history)
+            if (d, w) not in decorators:
+                decorators[(d, w)] = classes.slotted(dict=d, weakref=w)
+            new = decorators[(d, w)](cls)
             ms._S[i] = new
             return new
         return deco
